@@ -420,3 +420,29 @@ MANIFEST = dict(
     level_text='C11_no_panic (deobfuscate never panics, all methods, every byte string) and C11_drop_no_effect (a rejected message leaves the session state as it was, for every handler and history) are unconditional theorems about the model. The authenticity part as stated is false of the code (finding F3): C11_refuted exhibits, by computation with the Gallina ChaCha20-Poly1305 / AES-GCM, honest messages whose header byte 12 or 13 is altered and which are accepted; the same witnesses are replayed on the real code on every run. C11_partial proves that under an ideal AEAD nothing but these two header bytes escapes.',
     level_note='Unforgeability itself is a computational property and is an explicit hypothesis of C11_partial (shown satisfiable); the sweeps (every single-bit flip of 12 messages per method, all truncations, extensions, corruptions, foreign keys) are samples; accepted flips at byte offsets 12 and 13 are the known finding, anything else is a violation.',
     design_ref='DESIGN.md section 6, C11; section 7, F3')
+
+
+# ---- receive-loop level (tools/props/winlib.py): garbage written to a real connection of a real session
+import winlib
+
+TRUSTED = TRUSTED + ['receive loop: harness/multiplex/c11_loop_test.go drives switchboard.deplex through TLSConns over harness-owned byte streams; "the loop has consumed everything" is the loop being back in Read on an empty stream (a condition variable of the harness connection, no timing); outcomes judged by the property predicate (valid frames before and after delivered, session and connections open, no stream appears or closes, nothing sent)']
+MANIFEST = dict(MANIFEST, level_note=MANIFEST['level_note'] + ' Receive loop: the same kinds of garbage are also written to real connections of a real session between valid frames (switchboard.deplex), all four methods, ordered and unordered.')
+_corr_before_loop = correspondence
+_replay_before_loop = replay
+
+
+def correspondence(ctx, verdict, pr):
+    res = _corr_before_loop(ctx, verdict, pr)
+    res['broken'] += winlib.c11_loop(ctx, verdict)
+    return res
+
+
+def replay(ctx, verdict):
+    if ctx.replay.get('kind') == 'window':
+        return winlib.replay(ctx, verdict)
+    return _replay_before_loop(ctx, verdict)
+
+
+if 'search' not in globals():
+    def search(ctx, verdict, problems):
+        return winlib.search(ctx, verdict, problems)
